@@ -180,8 +180,8 @@ func claimsIgnoreAlias(S *Streams) (bool, int, []string) {
 			if pm.VocabURI == "" {
 				continue // JSON-LD id / type: never aliased
 			}
-			if u, claimed := tt.claimedVocab[pm.Name]; claimed && u == "" {
-				plain = true
+			if u, claimed := tt.claimedVocab[pm.Name]; claimed && (u == "" || normURI(u) != normURI(pm.VocabURI)) {
+				plain = true // compared plain, or under the alias of a vocabulary the property does not read it under
 			}
 		}
 		if plain {
